@@ -257,6 +257,24 @@ func vhHost(rec *[]int, a, b int) map[string]interface{} {
 				}
 			}
 		},
+		// what compiled code sees of a value passed as interface{}: its kind and size, not a wrapper
+		"Shape": func(x interface{}) int {
+			v := reflect.ValueOf(x)
+			switch v.Kind() {
+			case reflect.Struct:
+				return 100 + v.NumField()
+			case reflect.Ptr:
+				if v.IsNil() {
+					return 200
+				}
+				return 200 + int(v.Elem().Kind())
+			case reflect.Int:
+				return 300
+			case reflect.Invalid:
+				return -1
+			}
+			return int(v.Kind())
+		},
 		"Write": func(w io.Writer) {
 			n, err := w.Write([]byte{1, 2, 3})
 			out(n)
